@@ -121,6 +121,33 @@ theorems is met by every reachable state). -/
 theorem reachable_wf (F : Bool) (g : Core) (ops : List Op) : WF (run F (initSt g) ops) :=
   wf_run F _ ops (wf_init g)
 
+/-- C18, fields in closed form (the property's own wording).  From any reachable state `s` — in
+particular the state right after the logger of context `d` was created — and for any further call
+sequence: what `d` logs afterwards carries exactly the fields it carried in `s` plus the fields of
+every `WithFields` made since through a context that shares `d`'s logger at that moment, in order;
+nothing added through other loggers (its children, its parent, unrelated ones) appears. -/
+theorem fields_accumulate (s : St) (hs : WF s) (ops : List Op) (d : Nat) (hd : d < s.ctxs.length) :
+    (logOf (run true s ops) d).written = (logOf s d).written ++ addedSince true s ops d := by
+  induction ops generalizing s with
+  | nil => simp [run, addedSince]
+  | cons op ops ih =>
+    have := ih (step true s op) (wf_step true s op hs) (by rw [length_ctxs_step]; omega)
+    simp only [run, List.foldl_cons, addedSince] at this ⊢
+    rw [this, written_step s hs op d hd, List.append_assoc]
+
+/-- C18, level in closed form: the level of what `d` logs is the level most recently set through a
+context sharing `d`'s logger, or the level it had in `s` (inherited at creation) if none was set
+since. -/
+theorem level_most_recent (s : St) (hs : WF s) (ops : List Op) (d : Nat) (hd : d < s.ctxs.length) :
+    (logOf (run true s ops) d).level = (lastLevelSince true s ops d).getD (logOf s d).level := by
+  induction ops generalizing s with
+  | nil => simp [run, lastLevelSince]
+  | cons op ops ih =>
+    have := ih (step true s op) (wf_step true s op hs) (by rw [length_ctxs_step]; omega)
+    simp only [run, List.foldl_cons, lastLevelSince] at this ⊢
+    rw [this, level_step s hs op d hd]
+    cases lastLevelSince true (step true s op) ops d <;> simp
+
 /-- what the child inherits: the parent's fields plus its own, and the parent's level -/
 theorem child_inherits (s : St) (c : Nat) (fs : List Field) :
     abs (logOf (step true s (.child c fs)) s.ctxs.length) =
@@ -160,6 +187,16 @@ example :
     sp.emits 0 infoLevel = none ∧ sp.emits 0 warnLevel = some ["g:0"] ∧
     sp.emits 1 debugLevel = some ["g:0", "a:1", "b:2"] ∧ sp.emits 2 debugLevel = some ["g:0", "a:1", "b:2"] ∧
     sp.emits 5 warnLevel = none ∧ sp.emits 5 errorLevel = some ["g:0", "a:1", "b:2", "c:3", "d:4"] := by
+  decide
+
+/-- non-vacuity of the closed forms: after `InitLogger` (context 1), fields added through a derived
+context count, fields added to its child do not, and the last level set wins. -/
+example :
+    let s := run true (initSt (.base warnLevel ["g:0"])) [.init 0 ["a:1"]]
+    let ops := [Op.derive 1, .withFields 2 ["b:2"], .child 1 ["c:3"], .withFields 5 ["d:4"], .setLevel 2 debugLevel,
+      .setLevel 5 errorLevel, .enableDebug 0]
+    addedSince true s ops 1 = ["b:2"] ∧ lastLevelSince true s ops 1 = some debugLevel ∧
+      (logOf (run true s ops) 1).written = ["g:0", "a:1", "b:2"] := by
   decide
 
 /-! ## concurrent clause -/
